@@ -72,6 +72,73 @@ def run_cases(impl, model, cases):
     return res
 
 
+def gcc_callers(chk, model, quick):
+    """gcc-compiled C callers (generated from the same prototypes) enter the MIR function: the function
+    must observe the C caller's argument values and the C caller the function's results"""
+    from checks import c05 as C5
+    rng = chk.rng('c06-gcc')
+    protos = [G.gen_proto(rng, min_fixed=1, cf=True) for _ in range(90 if quick else 1200)]
+    impl_g, ok = C5.build_gen(chk, protos)
+    cases, lines = [], []
+    for k in ok:
+        p = protos[k]
+        vals, _ = G.gen_values(rng, p)
+        vals = G.fix_values(p, vals, rng)
+        resvals = H.res_values(rng, p)
+        for e in (['interp', rng.choice(['gen0', 'gen1', 'gen2', 'gen3']), 'lazy'] if quick else ENGINES):
+            body = H.gen_body(rng)
+            if body['kind'] == 'leafpress':
+                body['kind'] = 'pressure'
+            c = dict(proto=p, vals=vals, resvals=resvals, body=body, engine=e, junk=[], target='gcaller%d' % k)
+            vb = bytearray(H.vals_buffer(p, body, resvals))
+            ab = G.vals_bytes(p, vals)
+            vb[0:len(ab)] = ab
+            cases.append(c)
+            lines.append(' '.join(['q%d' % len(lines), 'c06', e, c['target'], G.hexs(H.c06_mir(p, body).encode()), G.hexs(bytes(vb)), '-']))
+    rc, out, err = vlib.run_lines(impl_g, lines, timeout=1800)
+    rows = {}
+    for l in out:
+        if l.strip():
+            r = G.parse_impl(l)
+            rows.setdefault(r['id'], r)
+    mlines = [G.model_line('q%d' % i, c['proto'], c['vals'], dict(rax=0, rdx=0, xmm0=0, xmm1=0), VALS_ADDR) for i, c in enumerate(cases)]
+    rc2, mout, merr = vlib.run_lines(model, mlines, timeout=600)
+    if rc2 != 0 or len(mout) != len(cases):
+        raise vlib.BuildError('model driver failed rc=%d: %s' % (rc2, merr[-800:]))
+    found = []
+    for i, c in enumerate(cases):
+        p = c['proto']
+        m = G.parse_model(mout[i])
+        r = rows.get('q%d' % i, dict(status='missing', detail=err[-200:]))
+        chk.count(('gcc-caller', G.proto_sig(p), c['engine'], c['body']['kind']), nontrivial=len(p['args']) >= 2)
+        chk.dist('threeway', 'gcc-caller->mir')
+        bad = []
+        if r['status'] != 'ok':
+            bad.append('%s %s' % (r['status'], r.get('detail', '')))
+        else:
+            outs = r['outs']
+            offs, _ = G.layout(p)
+            for k, (t, b, off) in enumerate(zip(p['args'], c['vals'], offs)):
+                if t.startswith('rblk'):
+                    continue
+                want = H.expected_param_bytes(t, b, 0, off)
+                if outs[off:off + len(want)] != want:
+                    bad.append('param %d (%s%s): function sees %s, gcc-compiled caller passed %s' % (
+                        k, t, ' variadic' if k >= p['nfixed'] else '', outs[off:off + len(want)].hex(), want.hex()))
+            seen = r.get('seen', b'')[2048:]
+            res = p['res']
+            pos = [0] if len(res) == 1 else ([0, 16] if res and res[0] == 'ld' else [0, 8])
+            for k, t in enumerate(res[:2] if len(res) <= 2 else []):
+                n = {'i8': 1, 'u8': 1, 'i16': 2, 'u16': 2, 'i32': 4, 'u32': 4, 'f': 4, 'ld': 10}.get(t, 8)
+                if seen[pos[k]:pos[k] + n] != c['resvals'][k][:n]:
+                    bad.append('result %d (%s): gcc-compiled caller receives %s, function returned %s' % (
+                        k, t, seen[pos[k]:pos[k] + n].hex(), c['resvals'][k][:n].hex()))
+        if bad:
+            found.append((c, bad, m))
+    chk.cov['gcc_expressible_prototypes'] = '%d of %d' % (len(ok), len(protos))
+    return found
+
+
 def c06_boundary():
     out = []
     i64 = 'i64'
@@ -134,7 +201,7 @@ def gen_cases(chk, quick):
 
 
 def replay_obj(c, bad, m):
-    return dict(proto=c['proto'], engine=c['engine'], body=c['body'], vals=[v.hex() for v in c['vals']],
+    return dict(proto=c['proto'], engine=c['engine'], body=c['body'], target=c.get('target', 'tramp'), vals=[v.hex() for v in c['vals']],
                 resvals=[v.hex() for v in c['resvals']], junk=c['junk'], mismatches=bad,
                 model_image=['%s=%s/%d' % x for x in m['img']], model_va=m.get('vastart'), frame=m.get('frame'),
                 mir=H.c06_mir(c['proto'], c['body']))
@@ -242,6 +309,15 @@ def run(chk):
         chk.finding(signature(c2), replay_obj(c2, bad2, m2),
                     'MIR function %s entered via %s (%s body): %s' % (
                         G.proto_sig(c2['proto']), c2['engine'], c2['body']['kind'], '; '.join(bad2[:3])))
+    for c2, bad2, m2 in gcc_callers(chk, model, quick):
+        sig = 'c06:gcc-caller:' + signature(c2)
+        if sig in seen:
+            continue
+        seen.add(sig)
+        nbad += 1
+        if nbad <= 14:
+            chk.finding(signature(c2), replay_obj(c2, bad2, m2), 'MIR function %s entered from a gcc-compiled caller via %s (%s body): %s' % (
+                G.proto_sig(c2['proto']), c2['engine'], c2['body']['kind'], '; '.join(bad2[:3])))
     if not r['ok'] and not nbad:
         chk.proof_broken(r, searched='%d native->MIR calls agreed with the SysV model' % len(cases))
 
